@@ -16,6 +16,7 @@ import MptModel.Lemmas.HeapPrintf
 import MptModel.Lemmas.HeapSlice
 import MptModel.Lemmas.HeapTyped
 import MptModel.Lemmas.HeapValues
+import MptModel.Lemmas.HeapSuccess
 namespace Mpt.C04
 open Mpt Mpt.Heap
 
@@ -56,6 +57,39 @@ theorem value_semantics {s s' : State} (hinv : Inv s) (op : Op) (wf : op.wf s.hs
   have sem := exec_sem hinv op wf
   rw [e] at sem
   exact ⟨sem.2.2.1, sem.2.2.2⟩
+
+/-- the relation proved above is the S column of the correspondence run: the model driver prints, for every
+    operation of this alphabet, exactly the alternatives `specAlts` (Spec/ArrayOps.lean) plus "refused, nothing
+    changed", and the real code is judged against that list -/
+theorem spec_alternatives (s : State) (op : Op) (v v' : Vec.Vec) : specRel s op v v' ↔ v' ∈ specAlts s op v :=
+  specRel_iff_alts s op v v'
+
+/-- `reserve` and `detach` keep the value: no truncation, no emptying (state without typed or immutable buffers) -/
+example : ¬ specRel {} (.reserve 0 0 none) [1, 2, 3] [] ∧ ¬ specRel {} (.reserve 0 0 none) [1, 2, 3] [1] ∧
+    ¬ specRel {} (.detach 0 1) [1, 2, 3] [1] ∧ specRel {} (.reserve 0 0 none) [1, 2, 3] [1, 2, 3] := by
+  simp [specRel, typeDiffers, ownerImmutable, State.handle]
+
+/-- success: `Sem` alone would be satisfied by a model that refuses everything.  On a handle that is empty or owns a
+    private, mutable buffer of the matching kind (`Free`), append and insert (raw data, any position) and set (plain
+    element type, whole elements, position not in front of the data) are NOT refused: they succeed with exactly the
+    value of the vector spec.  (Slice: `slice_struct`; on shared buffers success additionally needs a copyable
+    buffer.) -/
+theorem success {s : State} (hinv : Inv s) {h : Nat} (hlt : h < s.hs.length) :
+    (∀ bytes, Free s h none → ∃ s' v, arrayAppend s h bytes = .ok s' v ∧ s'.abs h = Vec.append (s.abs h) bytes) ∧
+    (∀ pos bytes, Free s h none → ∃ s' v, insertOp s h pos bytes = .ok s' v ∧ s'.abs h = Vec.insert (s.abs h) pos bytes) ∧
+    (∀ t bytes hasSrc off, PlainT (some t) → Free s h (some t) → bytes.length % t.size = 0 →
+      Vec.setAt (s.abs h) t.size off bytes ≠ none →
+      ∃ s' v, arraySet s h (some t) bytes hasSrc off = .ok s' v ∧ Vec.setAt (s.abs h) t.size off bytes = some (s'.abs h)) := by
+  refine ⟨fun bytes fr => ?_, fun pos bytes fr => ?_, fun t bytes hasSrc off pt fr whole inr => ?_⟩
+  · obtain ⟨s', v, e, _, a, _⟩ := append_succeeds hinv hlt fr bytes
+    exact ⟨s', v, e, a⟩
+  · obtain ⟨s', v, e, _, a, _⟩ := insert_succeeds hinv hlt fr pos bytes
+    exact ⟨s', v, e, a⟩
+  · obtain ⟨s', v, e, _, a, _⟩ := set_succeeds hinv hlt t pt fr bytes hasSrc off whole inr
+    exact ⟨s', v, e, a⟩
+
+/-- the empty handle of the initial state is `Free` for every kind -/
+example : Free { hs := [none], wins := [none] } 0 none := Or.inl rfl
 
 /-- refusal: a refused operation changes what no handle reads; and when the arguments fall outside the data
     (the spec relates the current value to no result) the operation is refused -/
@@ -152,18 +186,20 @@ theorem printf (s : State) (h : Nat) (ct : Traits) (text : List Byte) (inv : Inv
     Sem s h (fun v v' => v' = Vec.append v text) (arrayPrintf s h ct text) :=
   printf_sem inv hlt ct pt c1 text
 
-/-- slice-write: whole blocks are appended to the window of the slice handle (`k ≤ nblk` of them); every array
-    handle keeps its value (the window is `s.wins[h]` on the buffer of `h`); a typed buffer is refused without a
-    change; nothing faults -/
+/-- slice-write: whole blocks are appended to the window of the slice handle — `k ≤ nblk` of them, at least one when
+    blocks were offered (all of them when a new buffer is needed); every array handle other than the slice's own keeps
+    its value (the window is `s.wins[h]` on the buffer of `h`; what `h` reads as an array is its buffer, which the
+    move-to-front path cuts down to the window); a refused call (typed buffer) changes no handle at all; nothing
+    faults.  Windows inside the data only (`wfit`); element size 0 ("prepare") is not modelled. -/
 theorem slice_write (s : State) (h nblk esz : Nat) (bytes : List Byte) (w : Win) (inv : Inv s) (hlt : h < s.hs.length)
-    (bl : bytes.length = nblk * esz) (hw : s.win h = some w) (wfit : w.off + w.len ≤ (s.abs h).length) :
+    (e0 : esz ≠ 0) (bl : bytes.length = nblk * esz) (hw : s.win h = some w) (wfit : w.off + w.len ≤ (s.abs h).length) :
     match sliceWrite s h nblk esz bytes with
     | .fault _ => False
-    | .fail s' _ => Inv s' ∧ ∀ h', h' ≠ h → s'.abs h' = s.abs h'
-    | .ok s' k => Inv s' ∧ k ≤ nblk ∧ (∀ h', h' ≠ h → s'.abs h' = s.abs h') ∧
+    | .fail s' _ => Inv s' ∧ ∀ h', s'.abs h' = s.abs h'
+    | .ok s' k => Inv s' ∧ k ≤ nblk ∧ (nblk ≠ 0 → 1 ≤ k) ∧ (∀ h', h' ≠ h → s'.abs h' = s.abs h') ∧
         ∃ w', s'.win h = some w' ∧
           Vec.sub (s'.abs h) w'.off w'.len = Vec.sub (s.abs h) w.off w.len ++ Vec.blocks bytes k esz :=
-  sliceWrite_sem s h nblk esz bytes w inv hlt bl hw wfit
+  sliceWrite_sem s h nblk esz bytes w inv hlt e0 bl hw wfit
 
 /-- `mpt_values_prepare` (mptplot/values, a caller of the buffer's detach): `len ≥ 0` appends `len` zeroed doubles,
     `len < 0` appends a copy of the last `-len` doubles and is refused without a change when the array holds fewer;
@@ -240,5 +276,27 @@ theorem cxx_typed (s : State) (h : Nat) (k : XKind) (pos : Int) (val : List Byte
     Sem s h (fun v v' => v' = v) (uDetach s h k) :=
   ⟨uInsert_sem inv hlt k pt hk pos val vl, uResize_sem inv hlt k pt hk n, uReserve_sem inv hlt k pt hk n,
     uDetach_sem inv hlt k pt hk⟩
+
+/-- out-of-range arguments of the typed C++ wrappers are refused without any change: `pointer_array::swap` with an
+    index outside the elements, `typed_array::set(pos, v)` with a position outside `[-length, length)` -/
+theorem cxx_refusal (s : State) (h : Nat) (k : XKind) :
+    (∀ p1 p2 : Int, (p1 < 0 ∨ p2 < 0 ∨ p1.toNat ≥ xLength s h k ∨ p2.toNat ≥ xLength s h k) →
+      swapX s h k p1 p2 = .fail s .null) ∧
+    (∀ (pos : Int) (val : List Byte), (pos + Int.ofNat (xLength s h k) < 0 ∨ pos ≥ Int.ofNat (xLength s h k)) →
+      uSet s h k pos val = .fail s .null) := by
+  refine ⟨fun p1 p2 c => ?_, fun pos val c => ?_⟩
+  · unfold swapX
+    simp only
+    rw [if_pos c]
+  · unfold uSet
+    simp only
+    have nn : (0 : Int) ≤ Int.ofNat (xLength s h k) := Int.natCast_nonneg _
+    by_cases neg : pos < 0
+    · rcases c with c | c
+      · rw [if_pos neg, if_pos c]
+      · omega
+    · rcases c with c | c
+      · omega
+      · rw [if_neg neg, if_pos c]
 
 end Mpt.C04
